@@ -46,7 +46,7 @@ def result_writer_rule(ctx, rule="R17d"):
                 writers.setdefault(b.path, (b, b.loc(bi)))
     exp = [fa.body(PS + f) for f in ("expand", "expand_node", "expand_edge")]
     exp = [e for e in exp if e is not None]
-    if len(exp) < 3:
+    if not exp:
         ctx.ob(rule, "anchor:expand", False, "mechanism PathSearch::expand / expand_node / expand_edge not found",
                key="%s|%s|missing-anchor|expand" % (ctx.pid, rule))
         return
